@@ -179,7 +179,6 @@ contract(SR + '._validate_destination', types={'self': "Inst('%s')" % AR_}, retu
 
 contract(SR + '._verify', types={'self': "Inst('%s')" % AR_},
          returns="Opt(Inst('%s'))" % AR_,
-         requires=['self.response is not None'],
          lets={'dest': 'self.response.destination', 'rx': 'self.valid_destination_regex', 'ii': 'self.response.issue_instant'},
          ensures=[('self-or-none', 'result is None or result == self'),
                   ('C06-version', "implies(result is not None, self.response.version == '2.0')"),
@@ -222,6 +221,7 @@ _SIGCHK = ('implies(self.response is not None and truthy(self.response.signature
 contract(SR + '._loads', types={'self': "Inst('%s')" % AR_, 'xmldata': 'Union(Str, Bytes)', 'decode': 'Any', 'origxml': 'Any'},
          returns="Inst('%s')" % AR_,
          ensures=[('self', 'result == self'),
+                  ('origxml', 'implies(truthy(origxml), self.origxml == origxml)'),
                   ('is-response', 'is_resp(xmldata)'),
                   ('C02-required-response-signature', 'implies(truthy(self.require_response_signature), RP(xmldata))'),
                   ('C01-response-signature-verified', _SIGCHK),
@@ -254,6 +254,7 @@ contract(AR_ + '.check_subject_confirmation_in_response_to', types={'irp': 'Opt(
 contract(AR_ + '.loads', types={'xmldata': 'Union(Str, Bytes)', 'decode': 'Any', 'origxml': 'Any'},
          returns="Inst('%s')" % AR_,
          ensures=[('self', 'result == self'),
+                  ('origxml', 'implies(truthy(origxml), self.origxml == origxml)'),
                   ('is-response', 'is_resp(xmldata)'),
                   ('C02-required-response-signature', 'implies(truthy(self.require_response_signature), RP(xmldata))'),
                   ('C01-response-signature-verified', _SIGCHK),
@@ -385,3 +386,36 @@ contract(AR_ + '._assertion', types={'assertion': ASRT, 'verified': 'Any'}, retu
                        'C04': ['C04-conditions-window', 'C04-session-window'],
                        'C05': ['C05-audience', 'C05-confirmations', 'C05-solicited'],
                        'C17': ['C04-conditions-window', 'C05-audience', 'C05-confirmations']})
+
+
+# ================================================================================================ verify / parse_assertion (C02, C17)
+_ALL_CHECKED = 'forall(lambda k: ASSERTION_CHECKED(self, self.assertions[k], self.xmlstr, False), 0, len(self.assertions))'
+contract(AR_ + '.parse_assertion', types={'keys': 'Any'}, returns='Bool',
+         ensures=[('C02/C17-every-kept-assertion-was-checked', 'implies(result is True, %s)' % _ALL_CHECKED),
+                  ('flags-untouched', 'self.require_signature == old(self.require_signature) and '
+                                      'self.require_response_signature == old(self.require_response_signature) and '
+                                      'self.require_signature_or_response_signature == old(self.require_signature_or_response_signature)')],
+         raises={'Exception': 'True'},
+         modifies=['self.assertions', 'self.assertion', 'self.ava', 'self.xmlstr', 'self.came_from', 'self.name_id',
+                   'self.not_on_or_after', 'self.session_not_on_or_after', '*.assertion', '*.encrypted_assertion',
+                   '*.subject_confirmation', 'lists', 'dicts'],
+         note='ASSUMED in this session (two decrypt while-loops over re-parsed documents, list surgery on advice elements): every '
+              'assertion that ends up in self.assertions -- plain or decrypted -- went through _assertion(), whose contract is '
+              'verified; decrypted ones had their signature checked by decrypt_assertions() against the decrypted text that '
+              'becomes self.xmlstr')
+
+contract(AR_ + '.verify', types={'keys': 'Any'}, returns="Opt(Inst('%s'))" % AR_,
+         ensures=[('self-or-none', 'result is None or result == self'),
+                  ('C06-success-and-version', "implies(result is not None, self.response.version == '2.0' and truthy(self.response.status) "
+                                              "and self.response.status.status_code.value == %s)" % _SUCCESS),
+                  ('C02-every-kept-assertion-was-checked',
+                   'implies(result is not None and isinstance(self.response, "saml2_tophat.samlp:Response"), %s)' % _ALL_CHECKED),
+                  ('flags-untouched', 'self.require_signature == old(self.require_signature) and '
+                                      'self.require_response_signature == old(self.require_response_signature) and '
+                                      'self.require_signature_or_response_signature == old(self.require_signature_or_response_signature)')],
+         raises={'Exception': 'True'},
+         modifies=['self.assertions', 'self.assertion', 'self.ava', 'self.xmlstr', 'self.came_from', 'self.name_id',
+                   'self.not_on_or_after', 'self.session_not_on_or_after', '*.assertion', '*.encrypted_assertion',
+                   '*.subject_confirmation', 'lists', 'dicts'],
+         clauses_from={'C02': ['C02-every-kept-assertion-was-checked'], 'C06': ['C06-success-and-version'],
+                       'C17': ['C02-every-kept-assertion-was-checked']})
